@@ -842,6 +842,23 @@ def derived_ok(P, adt, name, src):
                 if o[0] == "aggr" or o[0] == "const":
                     # constant TypeStructure (enum variants): not input dependent beyond the variant list
                     continue
+                if o[0] == "multi" and o[2] and all(x[0] in ("aggr", "const") for x in o[2]) and j is not None:
+                    # one constant per arm of a `match` that also picks the source field (`let (rust_type, structure) = match shape {..}`):
+                    # derived iff the arms' source constants determine the structure constant
+                    so = f.origin(rv["ops"][j])
+                    while so[0] == "proj" or (so[0] == "call" and so[1].args and so[1].name in ("to_string", "to_owned", "into", "clone", "from")):
+                        so = so[1] if so[0] == "proj" else f.origin(so[1].args[0])
+                    if so[0] == "multi" and len(so[2]) == len(o[2]) and so[1].rsplit(".", 1)[0] == o[1].rsplit(".", 1)[0] and all(x[0] in ("aggr", "const") for x in so[2]):
+                        import json as _json
+                        mp = {}
+                        fn_ok = True
+                        for sx, tx in zip(so[2], o[2]):
+                            ks, kt = _json.dumps(sx[1], sort_keys=True, default=str), _json.dumps(tx[1], sort_keys=True, default=str)
+                            if mp.setdefault(ks, kt) != kt:
+                                fn_ok = False
+                        if fn_ok:
+                            continue
+                    return False, "%s: %s takes one of %d constants that the %s constants do not determine" % (short_path(f.id), name, len(o[2]), src)
                 if o[0] == "call" and short_path(o[1].best) == "TypeResolver::parse_type_structure":
                     arg = f.describe_origin(f.origin(o[1].args[1]), short=False, deep=4)
                     srcop = f.describe_origin(f.origin(rv["ops"][j]), short=False, deep=4) if j is not None else None
